@@ -274,6 +274,28 @@ def run(eng: Engine, ck: Check):
         ck.ob('R-C19-EFFECTS', ha, ha.node, f'{a.split(":")[1]} adds to `{field}` what {b.split(":")[1]} removes (same element, opposite effect)', ok,
               f'{a.split(":")[1]}: {[(x["kind"], x["value"]) for x in ea]}; {b.split(":")[1]}: {[(x["kind"], x["value"]) for x in eb]}', construct=f'pair {a} / {b}')
 
+    # the two primitives the table treats as ADD / REMOVE on Room.users: they decide by looking at the list itself and touch nothing else.
+    # (Handlers also assign room.users directly -- REPLACE / CLEAR effects -- so any shadow copy of the membership kept beside the list
+    # goes stale at those sites.)
+    room_cls = eng.cls('Room', 'room/model.py')
+    for mname, test_pol, mut in (('add_user', False, 'append'), ('remove_user', True, 'remove')):
+        m_ = room_cls.methods.get(mname)
+        if m_ is None:
+            raise AnalysisError(f'anchor function vanished: Room.{mname}')
+        ck.visited(m_)
+        up_ = [p_ for p_ in m_.params if p_ != 'self'][0]
+        touched = {n.attr for n in walk_local(m_.node) if isinstance(n, ast.Attribute) and isinstance(n.value, ast.Name) and n.value.id == 'self'}
+        muts = [x for x in calls_in(m_.node) if isinstance(x.func, ast.Attribute) and x.func.attr in MUTATORS]
+        ok = touched == {'users'} and len(muts) == 1 and muts[0].func.attr == mut and unparse(muts[0].func.value) == 'self.users' and \
+            len(muts[0].args) == 1 and unparse(muts[0].args[0]) == up_
+        if ok:
+            gs_ = [(e, pol) for e, pol, _ in eng.guards_at(m_, muts[0])]
+            ok = len(gs_) == 1 and pat.match(gs_[0][0], pat.compile_pattern(f'{up_} in self.users')[0]) is not None and gs_[0][1] == test_pol
+        ck.ob('R-C19-EFFECTS', m_, m_.node, f'Room.{mname} {"appends the user unless" if mname == "add_user" else "removes the user if"} the user is in self.users, '
+              'decided on self.users itself and nothing else', ok,
+              f'attributes used: {sorted(touched)}; mutations: {[unparse(x)[:50] for x in muts]} — membership kept anywhere but in the list is not updated where '
+              'handlers replace or clear room.users (own leave, join, reset): users announced afterwards are silently dropped', construct=f'Room.{mname} primitive')
+
     # ---- R-C19-TARGET: events carry the room / user the message names
     for key, want in pinned.items():
         have = got.get(key)
